@@ -313,9 +313,19 @@ class RecSprout(SproutMechanism):
         gen = self.inner._generated_deme_ids_to_candidates_history[n_gen0:]
         used = self.inner._used_deme_ids_to_candidates_history[n_gen0:]
 
-        def ids(h):
-            return [[k, [rec.gid(i.genome) for i in v.individuals]] for k, v in (h[-1].items() if h else [])]
-        ev = {"e": "sprout", "snap": before, "ret": out, "gen": ids(gen), "used": ids(used)}
+        def ids(h, full):
+            res = []
+            for k, v in (h[-1].items() if h else []):
+                if full:
+                    res.append([k, [[rec.gid(i.genome), ("G", rec.goodness(i.fitness)),
+                                     int(rec.gid(i.genome) in pops.get(k, ())), int(rec.gid(i.genome) in hists.get(k, ()))]
+                                    for i in v.individuals]])
+                    for i in v.individuals:
+                        rec.good.add(rec.goodness(i.fitness))
+                else:
+                    res.append([k, [rec.gid(i.genome) for i in v.individuals]])
+            return res
+        ev = {"e": "sprout", "snap": before, "ret": out, "gen": ids(gen, True), "used": ids(used, False)}
         if self.atoms is not None:
             ev["atoms"] = self.atoms(rec, tree, ret, cents)
         else:
